@@ -9,7 +9,7 @@ from ..core import astutil as A
 from ..core.cfg import Cond
 from ..core.index import AnalysisError, FuncInfo
 from ..selftest import M
-from .common import (may_conds, is_early_exit_guard, TTF_OUTLINE, T, attr_stores, calls_named, check_forwarding, check_plumbing, conds, entails, every_origin, facts,
+from .common import (ext_name, branch_values, may_conds, is_early_exit_guard, TTF_OUTLINE, T, attr_stores, calls_named, check_forwarding, check_plumbing, conds, entails, every_origin, facts,
                      key, need, reached_under, subscript_stores, where)
 from .rounding import is_otround
 
@@ -103,6 +103,9 @@ def run(prog, chk):
     chk.decided += ["per-run accumulators of the interpolatable filters are per master inside the loop over the glyph sets (R02.12, shared with C09)"]
     chk.decided += ["the outline compilers generate a glyph only for a name the glyph set lacks (R02.13, shared with C01); the .notdef they add is drawn in the output flavour's contour direction (R02.14)"]
     chk.decided += ["in the static TrueType pipeline mixed glyphs are decomposed, unconditionally, before curves are converted (R02.15)"]
+    chk.decided += ["the caller's outline options reach the outline compiler as given (reviewed override table; shared with C01) (R02.17)"]
+    chk.decided += ["the TrueType glyph is the one the glyf pen built: no package code assigns, deletes or edits in place the outline fields of a compiled glyph (coordinates, endPtsOfContours, "
+                    "numberOfContours; point flags except the reviewed overlap bit; component flags except the reviewed bits) (R02.16)"]
     chk.not_decided += ["the cu2qu error bound itself", "point-for-point equality", "maxp counts (fontTools recalc)"]
     chk.guard(r021, prog, chk)
     chk.guard(r022, prog, chk)
@@ -120,6 +123,9 @@ def run(prog, chk):
     chk.guard(check_only_missing_glyphs_added, prog, chk, "R02.13")
     chk.guard(r0214, prog, chk)
     chk.guard(r0215, prog, chk)
+    chk.guard(r0216, prog, chk)
+    from .c01 import check_outline_option_overrides
+    chk.guard(check_outline_option_overrides, prog, chk, "R02.17")
 
 
 def _append_of(prog, fi, ctor_name):
@@ -283,7 +289,7 @@ def _is_error_formula(prog, fi, e) -> bool:
         return False
     sides = [_expand(prog, fi, e.left), _expand(prog, fi, e.right)]
     rel = [s for s in sides if isinstance(s, ast.BoolOp) and isinstance(s.op, ast.Or) and len(s.values) == 2
-           and "conversionError" in T(s.values[0]) and T(s.values[1]).endswith("DEFAULT_MAX_ERR")]
+           and "conversionError" in T(s.values[0]) and ext_name(prog, fi, s.values[1]) == "fontTools.cu2qu.ufo.DEFAULT_MAX_ERR"]
     upm = [s for s in sides if isinstance(s, ast.Call) and A.callee_name(s) == "getAttrWithFallback" and len(s.args) == 2 and A.is_const(s.args[1], "unitsPerEm")]
     return len(rel) == 1 and len(upm) == 1
 
@@ -319,8 +325,8 @@ def r023(prog, chk):
                message="the interpolatable pre-processor's conversion errors are no longer (conversionError or DEFAULT_MAX_ERR) x each master's unitsPerEm")
     # both DEFAULT_MAX_ERR come from fontTools.cu2qu.ufo
     for f in (sc, init):
-        d = f.module.imports.get("DEFAULT_MAX_ERR")
-        chk.ob("R02.3", f"{f.short}|DEFAULT_MAX_ERR is cu2qu's", d == "fontTools.cu2qu.ufo.DEFAULT_MAX_ERR", where(f), detail=str(d), nontrivial=False,
+        ds = sorted({ext_name(prog, f, n) for n in A.body_nodes(f.node) if isinstance(n, (ast.Name, ast.Attribute)) and T(n).endswith("DEFAULT_MAX_ERR")})
+        chk.ob("R02.3", f"{f.short}|DEFAULT_MAX_ERR is cu2qu's", ds == ["fontTools.cu2qu.ufo.DEFAULT_MAX_ERR"], where(f), detail=str(ds), nontrivial=False,
                message="DEFAULT_MAX_ERR is not fontTools.cu2qu.ufo.DEFAULT_MAX_ERR")
     chk.minimum("R02.3", 4)
 
@@ -433,14 +439,13 @@ def r027(prog, chk):
     need(pg, f"cannot interpret {cg.short}: pen.glyph(...)")
     for c in pg:
         rv = A.kwarg(c, "round")
-        ok = False
-        if isinstance(rv, ast.Name):
-            for d in prog.reaching(cg, rv.id, rv):
-                v, how = d.element()
-                if isinstance(v, ast.IfExp) and T(v.test) == "self.roundCoordinates":
-                    b = prog.ix.resolve_expr(cg.module, v.body, None)
-                    e = prog.ix.resolve_expr(cg.module, v.orelse, None)
-                    ok = (b or "").endswith(".otRound") and (e or "").endswith(".noRound")
+        bv = branch_values(prog, cg, rv) if rv is not None else []
+        ok = len(bv) >= 2
+        for v, fs in bv:
+            d_ = prog.ix.resolve_expr(cg.module, v, None) or ""
+            on = any(o == "truthy" and l == "self.roundCoordinates" for o, l, r in fs)
+            off = any(o == "falsy" and l == "self.roundCoordinates" for o, l, r in fs)
+            ok = ok and ((on and d_.endswith(".otRound")) or (off and d_.endswith(".noRound")))
         chk.ob("R02.8", f"{cg.short}|coordinates rounded with otRound unless roundCoordinates is off", ok, where(cg, c), detail="round = otRound if self.roundCoordinates else noRound",
                message="TrueType coordinates are not rounded with otRound (halves up) when rounding is on")
         dk = A.kwarg(c, "dropImpliedOnCurves")
@@ -481,10 +486,11 @@ def _is_transform_ctor(prog, fi, e) -> bool:
     return isinstance(e, ast.Call) and prog.is_call_to(fi, e, TRANSFORM)
 
 
-def _chain(e):
-    """x.m1(a).m2(b) -> (x, [(m1, call1), (m2, call2)])"""
+def _chain(e, stop=None):
+    """x.m1(a).m2(b) -> (x, [(m1, call1), (m2, call2)]); `stop(call)` marks a call that is the base itself (a constructor
+    reached through a module attribute is not a method of the module)"""
     ops = []
-    while isinstance(e, ast.Call) and isinstance(e.func, ast.Attribute):
+    while isinstance(e, ast.Call) and isinstance(e.func, ast.Attribute) and not (stop is not None and stop(e)):
         ops.append((e.func.attr, e))
         e = e.func.value
     return e, list(reversed(ops))
@@ -504,7 +510,7 @@ def _composition_shape(prog, fi, e, roles, is_outer) -> Tuple[bool, str]:
     cur = e
     # inline straight-line re-assignments (t = t.translate(..); t = t.transform(..))
     for _ in range(8):
-        base, ops = _chain(cur)
+        base, ops = _chain(cur, stop=lambda c_: _is_transform_ctor(prog, fi, c_))
         steps = ops + steps
         if isinstance(base, ast.Name) and base.id not in roles:
             ds = prog.reaching(fi, base.id, base)
@@ -619,7 +625,7 @@ def r0210(prog, chk, rule="R02.10"):
                     # identity fast path: only when OUTER is the identity
                     cs = conds(prog, h, r)
                     ok = any(c.polarity is True and isinstance(c.test, ast.Compare) and len(c.test.ops) == 1 and isinstance(c.test.ops[0], ast.Eq)
-                             and isinstance(c.test.left, ast.Name) and c.test.left.id in outers and T(c.test.comparators[0]) == "Identity" for c in cs)
+                             and isinstance(c.test.left, ast.Name) and c.test.left.id in outers and ext_name(prog, h, c.test.comparators[0]) == "fontTools.misc.transform.Identity" for c in cs)
                     why = "INNER returned only when OUTER == Identity"
                 else:
                     ok, why = _composition_shape(prog, h, r.value, hroles, is_outer_in(h, outers))
@@ -703,7 +709,90 @@ def r0215(prog, chk):
     chk.minimum("R02.15", 1)
 
 
+# ----------------------------------------------------------------------------- R02.16
+OUTLINE_FIELDS = ("coordinates", "endPtsOfContours", "numberOfContours")
+# flag bits the package sets on compiled glyphs / components; none of them moves a point
+REVIEWED_FLAG_BITS = {"flagOverlapSimple": "glyf point flag: overlap hint for rasterisers", "USE_MY_METRICS": "component flag: metrics only",
+                      "OVERLAP_COMPOUND": "component flag: overlap hint", "ROUND_XY_TO_GRID": "component flag: hinting of the offset"}
+
+
+def _outline_writes(tree: ast.AST):
+    """(node, what) for every write to an outline field of a compiled glyph under `tree`."""
+    out = []
+
+    def field_of(t):
+        """the outline field an assignment target / mutated receiver denotes"""
+        while isinstance(t, ast.Subscript):
+            t = t.value
+        if isinstance(t, ast.Attribute) and (t.attr in OUTLINE_FIELDS or t.attr == "flags"):
+            return t.attr
+        return None
+
+    for n in ast.walk(tree):
+        targets = []
+        if isinstance(n, ast.Assign):
+            targets = [(t, n.value, None) for t in n.targets]
+        elif isinstance(n, ast.AnnAssign) and n.value is not None:
+            targets = [(n.target, n.value, None)]
+        elif isinstance(n, ast.AugAssign):
+            targets = [(n.target, n.value, n.op)]
+        elif isinstance(n, ast.Delete):
+            targets = [(t, None, "del") for t in n.targets]
+        for t, v, op in targets:
+            for el in (t.elts if isinstance(t, (ast.Tuple, ast.List)) else [t]):
+                fl = field_of(el)
+                if fl is None:
+                    continue
+                if fl == "flags":
+                    if op is None and isinstance(el, ast.Attribute) and isinstance(v, ast.Call) and A.callee_name(v) == "intListToNum":
+                        continue  # head.flags: a table header bit list, not a glyph
+                    if isinstance(op, (ast.BitOr, ast.BitAnd)):
+                        quals = {id(x.value) for x in ast.walk(v) if isinstance(x, ast.Attribute)}  # `mod.FLAG`: the flag is the attribute
+                        bits = {x.id for x in ast.walk(v) if isinstance(x, ast.Name) and id(x) not in quals} | {x.attr for x in ast.walk(v) if isinstance(x, ast.Attribute) and id(x) not in quals}
+                        if bits and bits <= set(REVIEWED_FLAG_BITS) and not any(isinstance(x, ast.Constant) for x in ast.walk(v)):
+                            continue
+                out.append((n, f"{T(el, 50)} written"))
+        if isinstance(n, ast.Call) and isinstance(n.func, ast.Attribute):
+            recv = n.func.value
+            if isinstance(recv, ast.Attribute) and recv.attr in OUTLINE_FIELDS and n.func.attr in ("translate", "transform", "scale", "toInt", "append", "extend", "insert", "pop", "remove", "clear",
+                                                                                                 "absoluteToRelative", "relativeToAbsolute", "__setitem__", "__delitem__", "sort", "reverse"):
+                out.append((n, f"{T(n, 50)} edits the field in place"))
+            if isinstance(recv, ast.Attribute) and recv.attr == "flags" and n.func.attr in ("append", "extend", "insert", "pop", "remove", "clear", "__setitem__", "__delitem__", "reverse"):
+                out.append((n, f"{T(n, 50)} edits the point flags in place"))
+        if isinstance(n, ast.Call) and isinstance(n.func, ast.Name) and n.func.id in ("setattr", "delattr") and len(n.args) >= 2 and isinstance(n.args[1], ast.Constant) \
+                and n.args[1].value in OUTLINE_FIELDS + ("flags",):
+            out.append((n, f"{T(n, 50)}"))
+    return out
+
+
+def r0216(prog, chk):
+    """Who-may-write rule with an empty writer set: the glyf pen is the only producer of outline data.  A post-processing pass
+    over the compiled glyph (dropping, merging or moving points) changes what is rendered without any of the conversion rules
+    above seeing it."""
+    # the detector must recognise the forms it is meant to exclude
+    probe = ast.parse("g.coordinates = c\ng.flags = array('B', f)\ng.endPtsOfContours[0] = 3\ndel g.coordinates[1]\ng.coordinates.translate((1, 0))\ng.flags[0] |= 1\nsetattr(g, 'numberOfContours', 0)")
+    need(len(_outline_writes(probe)) == 7, "R02.16 self-test: the detector does not recognise its positive examples")
+    quiet = ast.parse("head.flags = intListToNum(x, 0, 16)\nc.flags |= USE_MY_METRICS\nc.flags &= ~ROUND_XY_TO_GRID\ng.flags[0] |= flagOverlapSimple\nn = g.numberOfContours\nself.flags = 1 if x else 2")
+    need(len(_outline_writes(quiet)) == 1, "R02.16 self-test: the detector fires on the reviewed idioms")  # only the last line (an unrelated plain .flags store) fires
+    n = 0
+    for fi in prog.ix.functions.values():
+        if isinstance(fi.node, ast.Lambda) or fi.parent is not None:
+            continue
+        n += 1
+        for node, what in _outline_writes(fi.node):
+            chk.ob("R02.16", f"{fi.short}|{A.keytext(fi.node, prog.ix.enclosing_stmt(node))}", False, where(fi, node), detail=what,
+                   message=f"{fi.short}: {what} - the outline of a compiled TrueType glyph is edited after the pen built it (points dropped, moved or renumbered behind the "
+                           f"conversion's back); the glyph no longer has to render the source shape")
+    chk.ob("R02.16", "no package function writes the outline fields of a compiled glyph", True, "", detail=f"{n} functions scanned; reviewed flag bits: {sorted(REVIEWED_FLAG_BITS)}", nontrivial=False)
+    need(n >= 300, f"R02.16 scanned only {n} functions")
+    chk.minimum("R02.16", 1)
+
+
 MUTANTS = [
+    M("compiled glyph post-processed: duplicate points dropped (seeded C02i)", "ufo2ft/outlineCompiler.py", "OutlineTTFCompiler.compileGlyphs",
+      "ttGlyphs[name] = ttGlyph", "if ttGlyph.numberOfContours > 0 and self.dropImpliedOnCurves:\n    ttGlyph.coordinates = ttGlyph.coordinates[:-1]\n    ttGlyph.flags = ttGlyph.flags[:-1]\n    ttGlyph.endPtsOfContours[-1] -= 1\nttGlyphs[name] = ttGlyph", rule="R02.16"),
+    M("compiled coordinates shifted in place", "ufo2ft/outlineCompiler.py", "OutlineTTFCompiler.compileGlyphs",
+      "ttGlyphs[name] = ttGlyph", "if ttGlyph.numberOfContours > 0:\n    ttGlyph.coordinates.toInt()\nttGlyphs[name] = ttGlyph", rule="R02.16"),
     M("mixed glyphs decomposed after the curve conversion (seeded C02f)", "ufo2ft/preProcessor.py", "TTFPreProcessor.initDefaultFilters",
       "filters.append(DecomposeComponentsFilter(include=lambda g: len(g)))\nif flattenComponents:\n    from ufo2ft.filters.flattenComponents import FlattenComponentsFilter\n    filters.append(FlattenComponentsFilter())",
       "if removeOverlaps:\n    filters.append(DecomposeComponentsFilter(include=lambda g: len(g)))\nif flattenComponents:\n    from ufo2ft.filters.flattenComponents import FlattenComponentsFilter\n    filters.append(FlattenComponentsFilter())", rule="R02.15"),
